@@ -49,6 +49,8 @@ def gen_desc(rng, prop):
     d["personality"] = rng.choice(PERSONALITIES)
     d["victim"] = f"worker{rng.randrange(d['n_workers'])}"
     d["preempt"] = rng.random() < 0.8
+    # the callback "returns the number of records": python ints and numpy integers alike
+    d["ret_type"] = rng.choice(["int", "int", "int64", "uint64", "int32"])
     # statement-level pre-emption inside helpers.py: off, rare, frequent
     d["line_p"] = rng.choice([0.0, 0.0, 0.02, 0.1, 0.3, 0.6])
     # a pre-empted process may stay descheduled for simulated time (stalled node), so that
